@@ -258,7 +258,7 @@ def explore_config(m, cfg, bound):
     m.note('max_inflight', stats.get('max_inflight', 0))
     if n >= 3 and w == 2 and any(b != 'ok' for b in modes):
         m.sample({'payload_modes': modes, 'max_workers': w, 'schedules': runs, 'distinct_yield_orders': len(orders),
-                  'one_order': [list(x) for x in sorted(orders)[-1]]})
+                  'one_order': [list(x) for x in sorted(orders, key=repr)[-1]]})
     if n >= 2 and len(orders) < 2 and w >= 1:
         # several schedules but one outcome means nothing collided
         m.add('single_outcome_configs')
